@@ -437,6 +437,21 @@ fn explore(ctx: &Ctx, rep: &mut Report) {
     } else {
         "popcount:default"
     });
+    if cfg!(feature = "simd") && !cfg!(feature = "portable-popcount") {
+        #[cfg(target_arch = "x86_64")]
+        {
+            if std::arch::is_x86_feature_detected!("avx512vpopcntdq") {
+                rep.path("popcount_words:avx512vpopcntdq");
+            } else {
+                rep.notes.push("simd build: AVX-512 VPOPCNTDQ kernel of popcount_words NOT exercised (host lacks it); the scalar POPCNT fallback ran".into());
+            }
+        }
+    }
+    #[cfg(target_arch = "x86_64")]
+    {
+        rep.path(if std::arch::is_x86_feature_detected!("avx2") { "scan_select:block_popcount:avx2" } else { "scan_select:block_popcount:portable" });
+        rep.path(if std::arch::is_x86_feature_detected!("bmi2") { "select_in_word:bmi2-present(dispatcher decides pdep/ctz)" } else { "select_in_word:ctz" });
+    }
     let maxw = ctx.pick(3, 4);
     let small = small_inputs(maxw);
     let blocks = block_inputs(q);
